@@ -127,6 +127,31 @@ func judgeFile(c *vlib.Ctx, writer, crash string, path string, old []byte, isNew
 	}
 }
 
+// c18WriteAfterCrash: whatever a killed writer left in the directory, the next
+// rewrite (here a shorter file, then a longer one) must again put exactly its
+// content at the config path.
+func c18WriteAfterCrash(c *vlib.Ctx, writer, crash, dir, cfg string, old []byte) {
+	short := strings.Replace(string(old), "/spare { pull { path /pull/spare } }\n", "", 1)
+	long := string(old) + "/later1 { pull { path /pull/later1 } }\n/later2 { pull { path /pull/later2 } }\n"
+	for i, content := range []string{short, long} {
+		resp, err := mcpCall(dir, cfg, nil, nil, "config_apply", map[string]any{"content": content, "mode": "write_only"})
+		if err != nil {
+			c.Inconclusive("C18 write after crash: " + err.Error())
+			return
+		}
+		b, rerr := os.ReadFile(cfg)
+		c.Count("evaluations", 1)
+		c.Count("writes_after_crash", 1)
+		c.Distinct("nontrivial", fmt.Sprintf("write_after_crash:%s:%s:%s", writer, crashClass(crash), []string{"shorter", "longer"}[i]))
+		if rerr != nil || string(b) != content {
+			wit := map[string]any{"crashed_writer": writer, "crash": crash, "response": resp[:minInt(300, len(resp))], "want_len": len(content), "got_len": len(b), "got_tail": string(b[maxInt(0, len(b)-160):]), "leftovers": c20Snapshot(dir)}
+			c.Violation(vlib.Signature{"class": "write_after_crash_not_exact", "writer": writer, "crash": regexp.MustCompile(`\d+$`).ReplaceAllString(crash, "N"), "next_write": []string{"shorter", "longer"}[i]},
+				fmt.Sprintf("[%s killed at %s] the next config_apply (%s content, %d bytes) left %d bytes at the config path that are not its content (compiles: %v)", writer, crash, []string{"shorter", "longer"}[i], len(content), len(b), compilesOK(b) == nil), wit)
+			return
+		}
+	}
+}
+
 func crashClass(s string) string {
 	if strings.HasPrefix(s, "inject:") {
 		parts := strings.Split(s, ":")
@@ -214,6 +239,7 @@ func c18Files(c *vlib.Ctx) {
 				c.Count("killed_at_point", 1)
 			}
 			judgeFile(c, w.name, w.prefix+".writefile."+pt, cfg, old, w.isNew(old))
+			c18WriteAfterCrash(c, w.name, w.prefix+".writefile."+pt, dir, cfg, old)
 			_ = os.RemoveAll(dir)
 		}
 		// injected SIGKILL at syscall indices of the write path
@@ -234,6 +260,9 @@ func c18Files(c *vlib.Ctx) {
 					return
 				}
 				judgeFile(c, w.name, fmt.Sprintf("inject:%s:%d", sc, k), cfg, old, w.isNew(old))
+				if k%2 == 0 {
+					c18WriteAfterCrash(c, w.name, fmt.Sprintf("inject:%s:%d", sc, k), dir, cfg, old)
+				}
 				_ = os.RemoveAll(dir)
 			}
 		}
@@ -241,6 +270,7 @@ func c18Files(c *vlib.Ctx) {
 	c18AdminWriter(c, root)
 }
 
+var reRename = regexp.MustCompile(`rename(?:at2?)?\((?:AT_FDCWD(?:<[^>]*>)?, )?"([^"]+)", (?:AT_FDCWD(?:<[^>]*>)?, )?"([^"]+)"`)
 var reOpenat = regexp.MustCompile(`openat\(AT_FDCWD(?:<[^>]*>)?, "([^"]+)", ([A-Z_|]+)`)
 
 // c18TraceSpec: write(tmp) -> fsync(tmp) -> rename(tmp, path) -> fsync(dir); never O_TRUNC on the path.
@@ -254,15 +284,19 @@ func c18TraceSpec(c *vlib.Ctx, writer, trace, cfgPath string) {
 	base := filepath.Base(cfgPath)
 	dir := filepath.Dir(cfgPath)
 	stage := 0 // 0 nothing, 1 tmp written, 2 tmp synced, 3 renamed, 4 dir synced
+	// the temporary file is whatever gets renamed over the config path, under any name
 	tmp := ""
+	for _, ln := range lines {
+		if m := reRename.FindStringSubmatch(ln); m != nil && filepath.Base(m[2]) == base && filepath.Base(m[1]) != base {
+			tmp = m[1]
+			break
+		}
+	}
 	c.Count("evaluations", 1)
 	for _, ln := range lines {
 		if m := reOpenat.FindStringSubmatch(ln); m != nil {
 			if filepath.Base(m[1]) == base && strings.Contains(m[2], "O_TRUNC") {
 				c.Violation(vlib.Signature{"class": "config_path_opened_with_truncate", "writer": writer}, "the config path itself is opened with O_TRUNC: "+ln, nil)
-			}
-			if strings.HasPrefix(filepath.Base(m[1]), "."+base+".tmp-") && strings.Contains(m[2], "O_CREAT") {
-				tmp = m[1]
 			}
 			continue
 		}
@@ -433,4 +467,11 @@ func c18MCPReloadVerdict(c *vlib.Ctx) {
 			_ = os.RemoveAll(f.Dir)
 		}
 	}
+}
+
+func maxInt(a, b int) int {
+	if a > b {
+		return a
+	}
+	return b
 }
